@@ -479,7 +479,7 @@ Proof.
                  | Some (CS x) => Ok x | Some _ => Err "TypeError" | None => Err "KeyError" end
                  = Ok (fst (expected_key a))).
   { rewrite Hkey. unfold is_sat. destruct (String.eqb (am_sat a) ""); cbn [negb fst]; [rewrite L1|rewrite L2]; reflexivity. }
-  rewrite Hant. cbn [bind]. rewrite Hcode. cbn [bind]. rewrite Hcnt, L9. cbn [sat_from_required all_off].
+  rewrite Hant. cbn [bind]. rewrite Hcode. cbn [bind]. rewrite Hcnt, L9. cbn [sat_from_required until_now all_off].
   assert (Hk2 : (fst (expected_key a),
                  if is_sat then match dateval (am_from a) with Some (CT t) => Some t | _ => Some min_us end else None)
                 = expected_key a).
@@ -504,7 +504,7 @@ Proof.
                              bind (Ok (am_cospar a)) (fun cospar : string =>
                              bind (Ok (am_type a)) (fun atype : string =>
                              Ok (Some {| si_cospar := cospar; si_code := am_sat a; si_type := atype;
-                                         si_until := match dateval (am_until a) with Some (CT t) => Some t | _ => None end |})))
+                                         si_until := match dateval (am_until a) with Some (CT t) => Some t | _ => Some max_us end |})))
                          | None => Err "UnboundLocalError"
                          end
                     else Ok None) = Ok (en_sat (expected_entry a))).
@@ -872,6 +872,17 @@ Lemma sat_without_from_refuted :
   good_file wfile2 = true /\ parse (only 16) std_table (render_file wfile2) = Err "UnboundLocalError"
   /\ map fst (expected wfile2) = [("E11", Some min_us); ("AERAT1675_120   SPKE", None)].
 Proof. split; [exact wfile2_good|]. split; vm_compute; reflexivity. Qed.
+
+Lemma until_now_refuted :
+  good_file wfile2 = true /\ parse (only 32) std_table (render_file wfile2) <> Ok (expected wfile2)
+  /\ match expected wfile2 with
+     | (_, e) :: _ => match en_sat e with Some s => si_until s = Some max_us | None => False end
+     | [] => False
+     end.
+Proof.
+  split; [exact wfile2_good|]. split; [|vm_compute; reflexivity].
+  intros H. vm_compute in H. discriminate H.
+Qed.
 
 (* what exactly goes wrong in the witness *)
 Example witness_detail :
